@@ -15,8 +15,14 @@ Two kinds of cases.
                                           A name (and each directory in it) may contain and END in
                                           white space - blank, tab, NBSP, U+3000 - and a directory or
                                           file below the top level may start with it; the name as a
-                                          whole may not (an md5sums line cannot express that), nor
-                                          contain CR/LF/NUL
+                                          whole may not (an md5sums line cannot express that).  Apart
+                                          from LF and NUL a name may hold ANY character: controls, DEL,
+                                          zero-width space, BOM and the characters str.splitlines() /
+                                          bytes.splitlines() (but not the md5sums list, whose lines end
+                                          at LF) take for line ends - VT FF FS GS RS NEL U+2028
+                                          U+2029 anywhere behind the first character, CR anywhere but
+                                          as the very last character of the name (a CR in front of the
+                                          LF is the CRLF line end the reader accepts)
  "tarfmt":   "gnu" | "pax" | "ustar"
  "variants": [[control compression, data compression], ...]   each of "", gz, bz2, xz, lzma
  "binary_pos": 0 | 1 | 2      debian-binary first / between the parts / last
@@ -34,7 +40,9 @@ Two kinds of cases.
    Every reader is put through three rounds.  (1) All answers are compared with what was packed;
    the md5calls are made in the given order, each answer compared with the packed map whose names
    are decoded as that call asked (a name that cannot be decoded as asked: UnicodeError/DebError or
-   any answer; a name that decodes to nothing or to leading white space: not judged).
+   any answer; a name that decodes to nothing or to leading white space: not judged; a call WITH an
+   encoding on a package that has a CR inside a name: not judged - see ASSUMPTIONS - while the
+   call without encoding must return that name whole).
    (2) The mappings the reader handed out in round 1 (control fields from both routes, both
    scripts dicts, the three md5sum maps) are modified in place - every value overwritten, one
    entry deleted, one added - and the reader is asked for them again (the md5calls in reverse
@@ -77,7 +85,10 @@ ID = "C07"
 LEVEL = "exploration"
 RULE = ("package cases are (control fields, subset of maintainer scripts, 0..5 data files with binary "
         "content and names of 1..3 components with blanks/tabs/non-ASCII, a third of the components ending "
-        "in white space (blank, tab, NBSP, U+3000) and some lower ones starting with a blank, tar format, "
+        "in white space (blank, tab, NBSP, U+3000) and some lower ones starting with a blank, one component in six "
+        "holding - between ordinary text, before a blank, or as its last character - a non-printable character: a control, "
+        "DEL, ZWSP, BOM, US or one of the characters some splitlines() cuts at (VT FF FS GS RS NEL U+2028 U+2029; CR, never "
+        "as the last character of the whole name), tar format, "
         "list of (control, data) "
         "compression pairs, position of debian-binary, extra member, open mode, 2..6 md5sums calls); a third of the "
         "control values mix in non-printable characters (controls, NBSP, ZWSP, BOM and the 8 characters str.splitlines() "
@@ -116,8 +127,18 @@ ASSUMPTIONS = [
     "it neither satisfies nor duplicates a part (dpkg's stricter rule about unknown members between parts is not demanded)",
     "two members with the *same* name are not generated in member-set cases (the statement's 'more than one candidate' is read as distinct candidate names)",
     "file names: white space is generated inside and at the end of every path component and in front of "
-    "lower components; a name whose very first character is white space, or that contains CR, LF or NUL, is "
-    "outside the domain (one md5sums line '<md5>  <name>' cannot carry it)",
+    "lower components; a name whose very first character is white space, that contains LF or NUL, or whose very "
+    "last character is CR is outside the domain (one md5sums line '<md5>  <name>' LF cannot carry it: the reader "
+    "takes CR LF for a line end too). Every other character may occur in a name: the lines of an md5sums list end "
+    "at LF and nowhere else, so VT FF FS GS RS NEL U+2028 U+2029 (line ends for str.splitlines()) and US belong to "
+    "the name whether md5sums() is asked for bytes or for decoded names, and a CR inside a name belongs to it "
+    "when md5sums() is asked without an encoding",
+    "observation, not judged: a CR INSIDE a data file name + md5sums(encoding=...) - the unchanged library reads the "
+    "list through io.TextIOWrapper with universal newlines and cuts the line at the CR (files usr/plain, 'usr/a\\rb', "
+    "'z last': md5sums(encoding='utf-8') raises ValueError 'not enough values to unpack'; 'usr/a \\rb c' gives the keys "
+    "'usr/a ' and 'c'), while md5sums() returns b'usr/a\\rb' whole. The quantifier promises names with spaces, not "
+    "control characters, so a call with an encoding on a package with a CR in a name (after decoding) may raise "
+    "ValueError or return anything; the call without encoding, membership and content queries are judged strictly",
     "modifying a returned mapping = item assignment, del and insertion on the Deb822 / dict objects "
     "returned by debcontrol(), scripts() and md5sums(); file objects and the TarFile from tgz() are not tampered with",
     "the second reader, the bystander reader and the parts of the rejected archives are three small fixed "
@@ -134,6 +155,8 @@ EXHAUSTIVE = {
              "x 5x5 compressions x 3 tar formats x 3 debian-binary positions, 9 fixed md5sums(encoding, errors) calls each; "
              "105 look-alike member names x the part they resemble replaced (2 orders x 2 open modes) or accompanied; "
              "19 non-printable characters x 6 positions in a control value; "
+             "17 non-printable characters (the 8 that str.splitlines() cuts at, US, CR, 7 others) x 6 positions in a data file name "
+             "(CR: 5), md5sums asked with and without encoding; "
              "every one of these cases with a bystander reader open, and every accepted archive with the "
              "modify-and-ask-again round and the second-reader / 5 rejected archives round",
     "thorough": "all 2048 subsets of {debian-binary} + 5 control candidates + 5 data candidates, x 2 member orders x 2 open modes; "
@@ -141,6 +164,8 @@ EXHAUSTIVE = {
                 "x 5x5 compressions x 3 tar formats x 3 debian-binary positions x 2 open modes, 9 fixed md5sums(encoding, errors) calls each; "
                 "105 look-alike member names x the part they resemble replaced (2 orders x 2 open modes) or accompanied; "
                 "19 non-printable characters x 6 positions in a control value; "
+             "17 non-printable characters (the 8 that str.splitlines() cuts at, US, CR, 7 others) x 6 positions in a data file name "
+             "(CR: 5), md5sums asked with and without encoding; "
                 "every one of these cases with a bystander reader open, and every accepted archive with the "
                 "modify-and-ask-again round and the second-reader / 5 rejected archives round",
 }
@@ -204,19 +229,24 @@ def _valid_fieldname(n):
             and all("!" <= c <= "~" and c != ":" for c in n))
 
 
-NAME_BLANKS = " \t\xa0\u3000\x0b\x0c"     # white space a file name may contain (anywhere but in front)
+# characters that are no line end in an md5sums list (its lines end at LF) although str.splitlines()
+# or - CR - bytes.splitlines() and text-mode "universal newlines" cut there; US is white space only
+NAME_LINE_CHARS = LINE_BOUNDARY_CHARS + "\x1f\r"
+# what the generators put into names besides ordinary text (any other character is accepted too)
+NAME_ODD_CHARS = NAME_LINE_CHARS + "\x01\x1b\x7f\x80\xad\u200b\ufeff"
 
 
 def _valid_filename(n):
-    """A relative path that one md5sums line can carry: no line terminator or NUL, and no white
-    space in front (``<md5>  <name>`` cannot tell it from the separator).  White space inside and
-    at the END of the name or of a directory - blank, tab, VT, FF, NBSP, U+3000 - is allowed."""
-    if not isinstance(n, str) or not n or "\n" in n or "\x00" in n or "\r" in n or n[0].isspace():
+    """A relative path that one md5sums line can carry: no LF (the line end of the list), no NUL,
+    no white space in front (``<md5>  <name>`` cannot tell it from the separator) and no CR as the
+    very last character (CR LF is a line end the reader accepts).  Every other character - white
+    space inside and at the END of the name or of a directory, controls, VT FF FS GS RS NEL
+    U+2028 U+2029, a CR inside - is allowed."""
+    if not isinstance(n, str) or not n or n[0].isspace() or n[-1] == "\r":
         return False
-    for comp in n.split("/"):
-        if comp in ("", ".", "..") or not all(c.isprintable() or c in NAME_BLANKS for c in comp):
-            return False
-    return True
+    if any(c in "\n\x00" or "\ud800" <= c <= "\udfff" for c in n):
+        return False
+    return not any(comp in ("", ".", "..") for comp in n.split("/"))
 
 
 def _tree_conflict(names):
@@ -424,19 +454,21 @@ def _check_summary(deb, case, what):
         if got != scripts or not all(type(v) is bytes for v in got.values()):
             raise Violation("scripts", "%s: %s() = %s, packed %s" % (what, how, short(got, 200), short(scripts, 200)))
         handed.append((got, "added-by-the-caller", b"#!/bin/false\n"))
-    exp_md5 = dict((n, hashlib.md5(d).hexdigest()) for n, d in files)
-    got = deb.md5sums(encoding="utf-8")
-    if got != exp_md5:
-        raise Violation("md5sums", "%s: md5sums(encoding='utf-8') = %s, packed %s" % (what, short(got, 200), short(exp_md5, 200)))
-    handed.append((got, "added/by the caller", "0" * 32))
-    got = deb.md5sums()
-    if got != dict((n.encode("utf-8"), h) for n, h in exp_md5.items()):
-        raise Violation("md5sums", "%s: md5sums() = %s, packed %s" % (what, short(got, 200), short(exp_md5, 200)))
-    handed.append((got, b"added/by the caller", "0" * 32))
-    got = deb.control.md5sums(encoding="utf-8")
-    if got != exp_md5:
-        raise Violation("md5sums", "%s: control.md5sums(encoding='utf-8') = %s" % (what, short(got, 200)))
-    handed.append((got, "added/by the caller", "0" * 32))
+    for how, fn, enc in (("md5sums(encoding='utf-8')", deb.md5sums, "utf-8"), ("md5sums()", deb.md5sums, None),
+                         ("control.md5sums(encoding='utf-8')", deb.control.md5sums, "utf-8"),
+                         ("control.md5sums()", deb.control.md5sums, None)):
+        exp = _md5_model(files, enc, None)
+        try:
+            got = fn(encoding=enc) if enc else fn()
+        except ValueError:
+            if exp is not None:
+                raise
+            continue
+        if exp is None:                             # nothing is prescribed for this answer
+            continue
+        if got != exp or type(got) is not dict:
+            raise Violation("md5sums", "%s: %s = %s, packed %s" % (what, how, short(got, 200), short(exp, 200)))
+        handed.append((got, "added/by the caller" if enc else b"added/by the caller", "0" * 32))
     return handed
 
 
@@ -453,8 +485,9 @@ DEFAULT_MD5_CALLS = [["deb", "ascii", "replace"], ["deb", "ascii", "surrogateesc
 def _md5_model(files, encoding, errors):
     """The md5sum map with the names as the caller asked for them: bytes, or decoded with
     (encoding, errors).  'undecodable' when a name cannot be decoded that way; None when a decoded
-    name is one an md5sums line cannot express (empty or white space in front) - not judged."""
-    out = {}
+    name is one an md5sums line cannot express (empty or white space in front) - not judged; None
+    also for a call with an encoding when a name holds a CR (see ASSUMPTIONS)."""
+    out, unjudged = {}, False
     for n, d in files:
         key = n.encode("utf-8")
         if encoding is not None:
@@ -462,10 +495,10 @@ def _md5_model(files, encoding, errors):
                 key = key.decode(encoding, errors or "strict")
             except UnicodeDecodeError:
                 return "undecodable"
-            if not key or key[0].isspace():
-                return None
+            if not key or key[0].isspace() or "\r" in key:
+                unjudged = True
         out[key] = hashlib.md5(d).hexdigest()       # names that decode to the same text: the later line wins
-    return out
+    return None if unjudged else out
 
 
 def _check_md5_calls(deb, case, calls, what, labels):
@@ -714,6 +747,14 @@ def check_package(case):
         fancy = True
     if any("\t" in n for n, _ in files):
         labels.add("filename-with-tab")
+    if any(c in n for n, _ in files for c in LINE_BOUNDARY_CHARS):
+        labels.add("filename-with-a-character-str.splitlines-cuts-at")
+        fancy = True
+    if any("\r" in n for n, _ in files):
+        labels.add("filename-with-CR-inside")
+        fancy = True
+    if any(not (c.isprintable() or c.isspace()) for n, _ in files for c in n):
+        labels.add("filename-with-control-character")
     writer = case.get("writer", "harness")
     op = _Opened(case["open"])
     mixed = False
@@ -1027,11 +1068,22 @@ COMP_POOL = ["usr", "bin", "share", "doc", "a b", "été", "漢", "x", ".hidden"
 plain_component_st = st.one_of(st.sampled_from(COMP_POOL), comp_st)
 # white space at the end of a file or directory name (and, below the top level, in front of it)
 TAILS = [" ", "\t", "  ", " \t", "\xa0", "\u3000"]
-component_st = st.one_of(plain_component_st, plain_component_st,
-                         st.builds(lambda c, t: c + t, plain_component_st, st.sampled_from(TAILS)))
+# a character that is not printable - among them every one that some splitlines() takes for a line
+# end - between two pieces of ordinary text (which may hold blanks), or as the last character
+odd_name_char_st = st.one_of(st.sampled_from(list(NAME_LINE_CHARS)), st.sampled_from(list(NAME_ODD_CHARS)))
+odd_component_st = st.one_of(
+    st.builds(lambda a, ch, b: a + ch + b, plain_component_st, odd_name_char_st, plain_component_st),
+    st.builds(lambda a, ch, b: a + ch + b, plain_component_st, odd_name_char_st,
+              st.sampled_from([" b", "b c", "  two", " ", "b"])),
+    st.builds(lambda a, ch: a + ch, plain_component_st, odd_name_char_st))
+component_st = st.one_of(plain_component_st, plain_component_st, plain_component_st,
+                         st.builds(lambda c, t: c + t, plain_component_st, st.sampled_from(TAILS)),
+                         st.builds(lambda c, t: c + t, plain_component_st, st.sampled_from(TAILS)),
+                         odd_component_st)
 inner_component_st = st.one_of(component_st, component_st, component_st, component_st.map(lambda c: " " + c))
 filename_st = st.builds(lambda first, rest: "/".join([first] + rest), component_st,
-                        st.lists(inner_component_st, max_size=2))
+                        st.lists(inner_component_st, max_size=2)).map(
+    lambda n: n + "x" if n.endswith("\r") else n)     # a CR before the LF is part of the line end
 content_st = st.one_of(st.binary(max_size=24), st.sampled_from([b"", b"\n", b"#!/bin/sh\nexit 0\n", b"\x00" * 600]))
 latin = lambda b: b.decode("latin-1")
 
@@ -1147,6 +1199,26 @@ def enum_odd_control_values():
                    "ar_style": "gnu", "open": ("fileobj", "filename")[k % 2]}
 
 
+def enum_odd_file_names():
+    """Every character of NAME_ODD_CHARS inside a data file name: between two letters, before a
+    blank, after a blank with a blank further on, inside a directory name, twice in one name and
+    (CR excepted) as the last character; md5sums asked without and with an encoding
+    (DEFAULT_MD5_CALLS + the summary's calls)."""
+    k = 0
+    for ch in NAME_ODD_CHARS:
+        for tmpl in ("usr/a%sb", "usr/share/a b/page%s break", "usr/a %sb  two", "d%sir/x y", "usr/p%sq%sr",
+                     "usr/end%s"):
+            if ch == "\r" and tmpl.endswith("%s"):
+                continue
+            k += 1
+            yield {"kind": "package", "control": [["Package", "oddnames"], ["Version", "1"]],
+                   "scripts": {}, "files": [["usr/share/doc/plain", "first\n"], [tmpl.replace("%s", ch), "x\n"],
+                                            ["usr/share/doc/a b", "last\n"]],
+                   "tarfmt": ("gnu", "pax", "ustar")[k % 3],
+                   "variants": [[COMPS[k % 5], COMPS[(k // 5) % 5]]], "binary_pos": 0, "extra": False,
+                   "ar_style": "gnu", "open": ("fileobj", "filename")[k % 2]}
+
+
 def enum_big_files(sizes):
     """Packages whose compressed data part is larger than the decompressors' read chunks (8 KiB for
     xz/lzma, 128 KiB for gzip in this interpreter): every data compression x both open modes."""
@@ -1170,6 +1242,7 @@ def sources(tier):
                 Enum("big-files", enum_big_files([12000, 140000]), "2 sizes x 5 data compressions x 2 open modes x 2 control compressions"),
                 Enum("look-alike-members", enum_lookalikes, "each part replaced by each look-alike name x 2 orders x 2 open modes; look-alike added to a complete set"),
                 Enum("odd-control-values", enum_odd_control_values, "each non-printable / line-boundary character x 6 positions in a control value"),
+                Enum("odd-file-names", enum_odd_file_names, "each non-printable / line-boundary character (also CR) x 6 positions in a data file name"),
                 Hyp("packages", package_st(5), 60, shards=8),
                 Hyp("member-sets-random", members_st, 300, shards=1),
                 Hyp("dpkg-deb", dpkg_package_st(), 12, shards=1),
@@ -1179,6 +1252,7 @@ def sources(tier):
             Enum("big-files", enum_big_files([9000, 12000, 70000, 140000, 300000]), "5 sizes x 5 data compressions x 2 open modes x 2 control compressions"),
             Enum("look-alike-members", enum_lookalikes, "each part replaced by each look-alike name x 2 orders x 2 open modes; look-alike added to a complete set"),
             Enum("odd-control-values", enum_odd_control_values, "each non-printable / line-boundary character x 6 positions in a control value"),
+            Enum("odd-file-names", enum_odd_file_names, "each non-printable / line-boundary character (also CR) x 6 positions in a data file name"),
             Hyp("packages", package_st(25), 200, shards=16),
             Hyp("member-sets-random", members_st, 2000, shards=2),
             Hyp("dpkg-deb", dpkg_package_st(), 30, shards=8),
